@@ -200,14 +200,18 @@ Proof.
   cbn [bind] in H. eexists; split; [reflexivity|]. eapply L; eauto.
 Qed.
 
-(** a relation resolves iff a CTE or a catalog table of that name exists *)
+(** a relation resolves iff a CTE (for an unqualified name) or a catalog table of that name exists *)
 Theorem relation_resolves_iff e ctes rel :
   (exists t, qc_get_table e ctes rel = Ok t) <->
-  (assoc ctes (tn_name rel) <> None \/ cat_get_table (env_cat e) rel <> None).
+  ((tn_schema rel = "" /\ assoc ctes (tn_name rel) <> None) \/ cat_get_table (env_cat e) rel <> None).
 Proof.
-  unfold qc_get_table. destruct (assoc ctes (tn_name rel)) as [t|].
-  - split; [intros _; left; discriminate|eauto].
-  - destruct (cat_get_table (env_cat e) rel) as [t|].
+  unfold qc_get_table. destruct (String.eqb (tn_schema rel) "") eqn:Es.
+  - apply String.eqb_eq in Es. destruct (assoc ctes (tn_name rel)) as [t|].
+    + split; [intros _; left; split; [exact Es|discriminate]|eauto].
+    + destruct (cat_get_table (env_cat e) rel) as [t|].
+      * split; [intros _; right; discriminate|eauto].
+      * split; [intros [t H]; discriminate|intros [[_ H]|H]; congruence].
+  - apply String.eqb_neq in Es. destruct (cat_get_table (env_cat e) rel) as [t|].
     + split; [intros _; right; discriminate|eauto].
-    + split; [intros [t H]; discriminate|intros [H|H]; congruence].
+    + split; [intros [t H]; discriminate|intros [[H _]|H]; congruence].
 Qed.
